@@ -1,8 +1,9 @@
 """C05 — inferred integer bounds and alignments are sound (and tight where documented)."""
 import glob
 import os
+import sys
 
-from harness import fw, irx, gen_expr
+from harness import fw, irx, gen_expr, bounds_x
 
 META = {
     "technique": "Coq proof of soundness of a Gallina mirror of expression_bounds.py/constant_value/64-bit gate + differential correspondence with the Python pass (vm_compute)",
@@ -157,6 +158,8 @@ def annotation_violated(e, v):
     t = e.type
     if t.which_type == "integer":
         i = t.integer
+        if i.minimum_value == "infinity" or i.maximum_value == "-infinity":
+            return "value %d outside the empty inferred range [%s, %s]" % (v, i.minimum_value, i.maximum_value)
         if i.minimum_value not in ("-infinity", None, "") and v < int(i.minimum_value):
             return "value %d below inferred minimum %s" % (v, i.minimum_value)
         if i.maximum_value not in ("infinity", None, "") and v > int(i.maximum_value):
@@ -371,6 +374,9 @@ def run(ctx):
     ctx.assumptions = ["user-defined external integer types and $static_size_in_bits expressions are outside the model (counted in input_histogram as out-of-model)"]
     ctx.audit()
     ctx.check_theorems("EmbossV.Bounds.Properties_C05", "Bounds/Properties_C05.v", expect_min=6)
+
+    # --- (T) the model regenerated from the source of expression_bounds.py, proved equal to Bounds/Model.v ------
+    bounds_x.run_tie(ctx, sys.modules[__name__])
 
     # --- (i) helper functions ------------------------------------------------
     n_helper = 6000 if ctx.thorough() else 1500
